@@ -55,7 +55,7 @@ def lattice(tier, group):
 def scenario_case(params, model):
     f = common.fr_to_float
     c = dict(kind="scenario_single")
-    for k in ("maxiter", "maxfun", "maxls", "maxcor", "ftarget_kind", "gtol_kind", "callback_kind", "checkpoint", "ck_nit", "ck_pairs", "jac_mode", "x0_dtype", "jac_buffer", "mutate_args"):
+    for k in ("maxiter", "maxfun", "maxls", "maxcor", "ftarget_kind", "gtol_kind", "callback_kind", "checkpoint", "ck_nit", "ck_pairs", "jac_mode", "x0_dtype", "jac_buffer", "mutate_args", "ck_abnormal"):
         if k in params:
             c[k] = params[k]
     c["maxcor"] = params.get("maxcor", 2)
